@@ -5,11 +5,16 @@ to()/float()/double()/half()/bfloat16()/to(tensor)/to(instrument)/simulate()/reg
 changes of the global default dtype on all 8 primaries (and through derivatives) vs the Lean state
 machine (Model/DType.lean): after every operation the declared dtype, the dtype of every buffer and
 the dtype of payoff / features / hedge / P&L are compared.  CPU only.
+predicate-only scenarios (not part of the model): casts to complex dtypes in every to() form and in the constructor
+(TypeError, state unchanged); a LISTED derivative on the instrument whose price / Spot feature / hedge P&L are read after
+every operation (so before and after each cast); Hedger.compute_loss / price with n_times in {1,2,3} at the end of a history.
 """
 import itertools
 from common import *  # noqa
 
-DT = {"f16": "float16", "bf16": "bfloat16", "f32": "float32", "f64": "float64", "i64": "int64", "i32": "int32"}
+DT = {"f16": "float16", "bf16": "bfloat16", "f32": "float32", "f64": "float64", "i64": "int64", "i32": "int32",
+      "c64": "complex64", "c128": "complex128"}
+CPLX = ("c64", "c128")          # non-floating like the integers, but unknown to the Lean model: predicate only
 PRIMS = {
     "BrownianStock": ["spot"], "HestonStock": ["spot", "variance"], "CIRRate": ["spot"], "VasicekRate": ["spot"],
     "MertonJumpStock": ["spot"], "KouJumpStock": ["spot"], "RoughBergomiStock": ["spot", "variance"],
@@ -40,7 +45,7 @@ def gen_ops(g, prim, n):
     fl = ["f16", "bf16", "f32", "f64"]
     for _ in range(n):
         k = g.weighted([("to", 4), ("method", 2), ("to_none", 1), ("to_tensor", 1.5), ("to_inst", 1.5), ("simulate", 5),
-                        ("register", 1.5), ("default", 1), ("to_int", 0.7)])
+                        ("register", 1.5), ("default", 1), ("to_int", 0.7), ("to_cplx", 0.7)])
         if k == "to":
             ops.append(["to", g.choice(fl)])
         elif k == "method":
@@ -57,6 +62,8 @@ def gen_ops(g, prim, n):
             ops.append(["register", g.choice(["spot", "extra"]), g.choice(fl + ["i64"])])
         elif k == "default":
             ops.append(["default", g.choice(["f32", "f64"])])
+        elif k == "to_cplx":
+            ops.append(["to_cplx", g.choice(["dtype", "kw", "device_dtype", "kw_device_dtype", "tensor"]), g.choice(list(CPLX))])
         else:
             ops.append(["to", g.choice(["i64", "i32"])])
     return ops
@@ -77,6 +84,18 @@ def apply_op(torch, I, inst, op, via_derivative=None):
             target.to(torch.zeros(1, dtype=tdt(torch, op[1])))
         elif op[0] == "to_inst":
             target.to(I.BrownianStock(dtype=tdt(torch, op[1])))
+        elif op[0] == "to_cplx":
+            cd = tdt(torch, op[2])
+            if op[1] == "dtype":
+                target.to(cd)
+            elif op[1] == "kw":
+                target.to(dtype=cd)
+            elif op[1] == "device_dtype":
+                target.to(torch.device("cpu"), cd)
+            elif op[1] == "kw_device_dtype":
+                target.to(device="cpu", dtype=cd)
+            else:
+                target.to(torch.zeros(1, dtype=cd))
         elif op[0] == "simulate":
             if via_derivative is not None:
                 via_derivative.simulate(n_paths=2)
@@ -125,22 +144,36 @@ def _ExpU():
     return _EXPU[0]()
 
 
-def run_case(torch, I, ctx, prim, init, ambient, ops, use_deriv):
+def _listed_pricer(d):
+    # a listed price computed from the underlier's current buffers (intrinsic value + a time value), in their dtype
+    return (d.ul().spot - d.strike).relu() + d.time_to_maturity()
+
+
+def run_case(torch, I, ctx, prim, init, ambient, ops, use_deriv, listed=False, n_times=None):
     from pfhedge.nn import Hedger, Naked
+    from pfhedge.features import Spot
     torch.set_default_dtype(tdt(torch, ambient))
-    case = {"primary": prim, "init": init, "ambient": ambient, "ops": ops, "via_derivative": use_deriv}
+    case = {"primary": prim, "init": init, "ambient": ambient, "ops": ops, "via_derivative": use_deriv, "listed": listed, "n_times": n_times}
     try:
         inst = make(torch, I, prim, init)
     except TypeError:
+        torch.set_default_dtype(torch.float32)
         return case, None, [("err", "type_error")]
     deriv = I.EuropeanOption(inst, maturity=3 / 250) if prim not in ("CIRRate", "VasicekRate") else None
     if deriv is None:
         use_deriv = False
         case["via_derivative"] = False
+        case["listed"] = listed = False
+        case["n_times"] = n_times = None
+    lst = None
+    if listed:
+        # a second, exchange-traded option on the same underlier; casts / simulations "through a derivative" go through it
+        lst = I.EuropeanOption(inst, strike=1.05, maturity=3 / 250)
+        lst.list(_listed_pricer, cost=1e-4)
     obs0 = observe(torch, inst)
     steps = []
     for op in ops:
-        via = deriv if (use_deriv and op[0] in ("to", "method", "to_tensor", "to_inst", "simulate")) else None
+        via = (lst or deriv) if (use_deriv and op[0] in ("to", "method", "to_tensor", "to_inst", "to_cplx", "simulate")) else None
         st = apply_op(torch, I, inst, op, via)
         o = observe(torch, inst)
         extra = {}
@@ -161,10 +194,34 @@ def run_case(torch, I, ctx, prim, init, ambient, ops, use_deriv):
                     if pl_.dtype in (torch.float32, torch.float64):
                         # a user criterion relying on HedgeLoss.cash (the search precision 1e-6 is below half-precision resolution)
                         res["cash_default_search"] = _ExpU().cash(pl_).dtype
+                    if lst is not None:
+                        # listed price, the Spot feature of the listed option, and hedging `deriv` with the listed option
+                        res["listed_price"] = lst.spot.dtype
+                        if lst.dtype != inst.dtype:
+                            extra["alias"] = "derivative.dtype differs from its underlier's"
+                        ft = Spot().of(lst)
+                        res["spot_feature"] = ft.get(None).dtype
+                        res["spot_feature_step"] = ft.get(0).dtype
+                        res["portfolio_listed_hedge"] = h.compute_portfolio(deriv, hedge=[lst]).dtype
+                        res["pl_listed_hedge"] = h.compute_pl(deriv, hedge=[lst]).dtype
                 extra["results"] = {k: short(torch, v) for k, v in res.items()}
             except (RuntimeError, NotImplementedError) as e:
                 extra["results_backend"] = str(e)[:60]
         steps.append((st, o, extra))
+    if n_times is not None and steps and all(b.dtype.is_floating_point for b in inst.buffers()) and \
+            (inst.dtype is None or inst.dtype.is_floating_point):
+        # end of the history: loss and price re-simulate the instrument (so nothing may follow) and average over n_times evaluations
+        ens = {}
+        try:
+            with torch.no_grad():
+                h = Hedger(Naked(), ["moneyness", "time_to_maturity", "zeros"])
+                ens["loss"] = short(torch, h.compute_loss(deriv, n_paths=2, n_times=n_times, enable_grad=False).dtype)
+                ens["price"] = short(torch, h.price(deriv, n_paths=2, n_times=n_times).dtype)
+                ens["instrument"] = short(torch, inst.spot.dtype)
+                ens["payoff"] = short(torch, deriv.payoff().dtype)
+            steps[-1][2]["ensemble"] = ens
+        except (RuntimeError, NotImplementedError) as e:
+            steps[-1][2]["ensemble_backend"] = str(e)[:60]
     torch.set_default_dtype(torch.float32)
     return case, obs0, steps
 
@@ -182,26 +239,30 @@ def check(ctx):
         for init in (None, "f64"):
             for seq in itertools.product(alpha, repeat=depth):
                 ops = [(["simulate", PRIMS[prim]] if o[0] == "simulate" else list(o)) for o in seq]
-                cases.append((prim, init, "f32", ops, False))
+                cases.append((prim, init, "f32", ops, False, False, None))
     ctx.extra["exhaustive_depth"] = depth
     ctx.extra["exhaustive_sequences"] = len(cases)
     nrand = 1500 if ctx.tier == "quick" else 6000
     for _ in range(nrand):
         prim = g.choice(list(PRIMS))
-        init = g.choice([None, None, "f32", "f64", "f16", "bf16", "i64"])
+        init = g.choice([None, None, "f32", "f64", "f16", "bf16", "i64", g.choice(list(CPLX))])
         amb = g.choice(["f32", "f32", "f64"])
         ln = g.randint(1, 12 if ctx.tier == "quick" else 40)
-        cases.append((prim, init, amb, gen_ops(g, prim, ln), g.chance(0.4)))
+        cases.append((prim, init, amb, gen_ops(g, prim, ln), g.chance(0.4), g.chance(0.5), g.choice([None, 1, 2, 2, 3])))
     reqs, metas = [], []
     torch.manual_seed(ctx.seed % (2 ** 31))
-    for prim, init, amb, ops, use_deriv in cases:
-        case, obs0, steps = run_case(torch, I, ctx, prim, init, amb, ops, use_deriv)
+    for prim, init, amb, ops, use_deriv, listed, n_times in cases:
+        case, obs0, steps = run_case(torch, I, ctx, prim, init, amb, ops, use_deriv, listed, n_times)
         ctx.case(case, nontrivial=len(ops) >= 2, tag="dt_seq")
         ctx.traces += 1
         ctx.stats[f"primary={prim}"] += 1
         ctx.stats[f"len={min(len(ops), 13)}"] += 1
-        reqs.append({"op": "dt_seq", "init": init, "ambient": amb, "ops": [to_model_op(o) for o in ops]})
-        metas.append((case, obs0, steps))
+        if case["listed"]:
+            ctx.stats["listed_derivative"] += 1
+        if init not in CPLX:
+            # complex casts are expected to be rejected without a change of state: they are left out of the model's history
+            reqs.append({"op": "dt_seq", "init": init, "ambient": amb, "ops": [to_model_op(o) for o in ops if o[0] != "to_cplx"]})
+            metas.append((case, obs0, [s_ for o, s_ in zip(ops, steps) if o[0] != "to_cplx"]))
         # ---- predicate (independent of the model): the property statement
         if obs0 is None:
             if init in ("f16", "bf16", "f32", "f64", None):
@@ -209,6 +270,10 @@ def check(ctx):
             continue
         if init in ("i64", "i32"):
             ctx.fail("a non-floating dtype was accepted by the constructor", case, key="dtype:int-accepted")
+        if init in CPLX:
+            ctx.fail("a complex (non-floating) dtype was accepted by the constructor", case, key="dtype:complex-accepted:constructor",
+                     detail={"declared": obs0["declared"]})
+            continue
         amb_now = amb
         for i, (op, (st, o, extra)) in enumerate(zip(ops, steps)):
             c2 = case | {"step": i}
@@ -220,6 +285,19 @@ def check(ctx):
             if st == ("err", "recursion_error") and prim == "VasicekRate":
                 ctx.fail("VasicekRate.simulate raises RecursionError (generate_vasicek recursion)", c2, key="vasicek:recursion")
                 break
+            if op[0] == "to_cplx":
+                ctx.stats[f"to_cplx:{op[1]}"] += 1
+                prev = obs0 if i == 0 else steps[i - 1][1]
+                if st != ("err", "type_error"):
+                    ctx.fail("a complex (non-floating) dtype was not rejected with TypeError by to()", c2, key=f"dtype:complex-accepted:{op[1]}",
+                             detail={"form": op[1], "dtype": op[2], "outcome": list(st), "declared": o["declared"], "buffers": o["buffers"],
+                                     "via_derivative": case["via_derivative"]})
+                    break
+                if o != prev:
+                    ctx.fail("a rejected cast to a complex dtype changed the instrument's declared dtype or buffers", c2,
+                             key="dtype:complex-rejected-state-changed", detail={"before": prev, "after": o})
+                    break
+                continue
             wants_int = (op[0] in ("to", "to_tensor", "to_inst") and op[1] in ("i64", "i32"))
             if wants_int and st[0] == "ok":
                 ctx.fail("a non-floating dtype was accepted by to()", c2, key="dtype:int-accepted")
@@ -250,9 +328,22 @@ def check(ctx):
                 spot_dt = dict(map(tuple, o["buffers"]))["spot"]
                 wrong = {k: v for k, v in extra["results"].items() if v != spot_dt}
                 if wrong:
-                    ctx.fail("a quantity computed from the instrument is not in the instrument's dtype", c2, key="dtype:results",
+                    listed_keys = ("listed_price", "spot_feature", "spot_feature_step", "portfolio_listed_hedge", "pl_listed_hedge")
+                    only_listed = all(k in listed_keys for k in wrong)
+                    ctx.fail("a quantity computed from the instrument is not in the instrument's dtype" if not only_listed else
+                             "the listed price of a derivative (or the Spot feature / hedge P&L built on it) is not in the dtype of its underlier",
+                             c2, key="dtype:results:listed" if only_listed else "dtype:results",
                              detail={"instrument": spot_dt, "results": extra["results"]})
                     break
+        else:
+            # the whole history was consistent: loss / price at its end
+            if steps and "ensemble" in steps[-1][2]:
+                ens = steps[-1][2]["ensemble"]
+                ctx.stats[f"ensemble:n_times={case['n_times']}:{ens['instrument']}"] += 1
+                wrong = {k: v for k, v in ens.items() if v != ens["instrument"]}
+                if wrong:
+                    ctx.fail("Hedger.compute_loss / Hedger.price (averaged over n_times simulations) is not in the instrument's dtype", case,
+                             key="dtype:loss-price:n_times>=2" if case["n_times"] >= 2 else "dtype:loss-price", detail=ens)
     try:
         outs = ctx.driver(reqs)
     except DriverBroken as e:
@@ -284,4 +375,5 @@ def check(ctx):
     return ctx.finish(
         rule="exhaustive sequences of depth <=3 (quick) / 4 (thorough) over {to f64, to f16, to(device), simulate, register int buffer, to(instrument), "
              "default f64} x init in {None, f64}; random sequences (length <= 12 / 40) over all cast forms on all 8 primaries, directly and through a "
-             "derivative, both global defaults; non-trivial = >= 2 operations; distinct = sha1 of canonical case")
+             "derivative (half of them with a listed option on the instrument whose price is read after every step), casts to complex dtypes in all "
+             "to() forms and the constructor, loss/price with n_times in {1,2,3} at the end, both global defaults; non-trivial = >= 2 operations; distinct = sha1 of canonical case")
